@@ -495,8 +495,16 @@ where
         if let Some(ref mut data) = self.writing {
             while data.has_remaining() {
                 let stream = Pin::new(&mut self.stream);
-                let written = ready!(stream.poll_write(cx, data.chunk()))
-                    .map_err(convert_write_error_to_stream_error)?;
+                let written = match ready!(stream.poll_write(cx, data.chunk())) {
+                    Ok(written) => written,
+                    Err(e) => {
+                        // The stream is stopped, reset or lost: nothing of this buffer will ever
+                        // be written. Keeping it would turn every later call on this stream into
+                        // an internal (connection level) error in `send_data`.
+                        self.writing = None;
+                        return Poll::Ready(Err(convert_write_error_to_stream_error(e)));
+                    }
+                };
                 data.advance(written);
             }
         }
